@@ -531,6 +531,7 @@ class RefMap:
         self.fails = []
         self.pol = 0
         self.transferred = {}
+        self.restored = {}
         self.size_req = {}
         self.since_resize = {}
         self.lftl_pending = {}
@@ -549,6 +550,11 @@ class RefMap:
         if prop != "C11" and self.transferred.get(tid):
             self.fails.append({"property": "C11", "op_index": i, "op": line, "implementation_answer": got,
                                "why": "on an object produced by copy/move/swap: " + why})
+        # a table restored from a stream that then misbehaves (wrong size(), broken structure, lost or extra keys) is not the
+        # "fully working table with equal contents and size()" that C12 promises
+        if prop != "C12" and self.restored.get(tid):
+            self.fails.append({"property": "C12", "op_index": i, "op": line, "implementation_answer": got,
+                               "why": "on a table restored from a stream: " + why})
 
     @staticmethod
     def fn(spec, v):
@@ -575,6 +581,7 @@ class RefMap:
             return
         if op in ("new", "newa"):
             self.transferred[tid] = False
+            self.restored[tid] = False
             self.maps[tid] = {}
             self.locked[tid] = False
             self.mlf[tid] = MLF_DEFAULT
@@ -934,6 +941,7 @@ class RefMap:
                 self.mlf[tid] = src[1]
                 self.mhp[tid] = src[2]
                 self.read_settings[tid] = True
+            self.restored[tid] = True
 
 
 def check_stream(cfg, exe, lines):
